@@ -332,7 +332,7 @@ impl<Octs: Octets> Parameter<Octs> {
         if typ == 2 {
             // There might be more than Capability within a single Optional
             // Parameter, so we need to loop.
-            while parser.pos() < pos + len {
+            while parser.pos() < pos + 2 + len {
                 Capability::parse(parser)?;
             }
         } else {
